@@ -87,7 +87,7 @@ def load_known():
     return findings, fixed
 
 
-def run_check(prop, tier="quick", repo=None):
+def run_check(prop, tier="quick", repo=None, ctx=None):
     t0 = time.time()
     repo = repo or factsmod.REPO
     tier = os.environ.get("VERIF_TIER") or tier
@@ -96,7 +96,11 @@ def run_check(prop, tier="quick", repo=None):
     seed = int(os.environ.get("VERIF_SEED", "0") or 0)
     os.makedirs(os.path.join(EVID, "replay"), exist_ok=True)
     try:
-        ctx = Ctx(tier, repo)
+        if ctx is None:
+            ctx = Ctx(tier, repo)
+        else:
+            ctx.notes = [n_ for n_ in ctx.notes if n_.startswith("prep: ")]
+            ctx.analysed = {}
     except factsmod.NoFacts as e:
         print("ERROR property=%s no facts: %s" % (prop, e))
         return 2
@@ -221,6 +225,21 @@ def main(argv):
     if a.explain:
         print(open(a.explain).read())
         return 0
+    if a.prop == "ALL" or "," in a.prop:
+        # checker-validation aid (selftest): several properties on one load of the facts; prints "FIRED: .." and exits 1 if any fired
+        import registry
+        props = sorted(registry.CHECKS) if a.prop == "ALL" else a.prop.split(",")
+        try:
+            ctx = Ctx(a.tier, a.repo or factsmod.REPO)
+        except factsmod.NoFacts as e:
+            print("ERROR no facts: %s" % e)
+            return 2
+        fired = []
+        for p in props:
+            if run_check(p, a.tier, a.repo, ctx) != 0:
+                fired.append(p)
+        print("FIRED: %s" % (" ".join(fired) or "none"))
+        return 1 if fired else 0
     return run_check(a.prop, a.tier, a.repo)
 
 
